@@ -45,8 +45,12 @@ func (r *sr) u24() int {
 	}
 	return int(v[0])<<16 | int(v[1])<<8 | int(v[2])
 }
-func (r *sr) vec8() *sr  { n := r.u8(); return &sr{b: r.take(n), bad: r.bad} }
-func (r *sr) vec16() *sr { n := r.u16(); return &sr{b: r.take(n), bad: r.bad} }
+func (r *sr) vec(n int) *sr {
+	b := r.take(n)
+	return &sr{b: b, bad: r.bad}
+}
+func (r *sr) vec8() *sr  { return r.vec(r.u8()) }
+func (r *sr) vec16() *sr { return r.vec(r.u16()) }
 
 // wireExt: one extension as found on the wire
 type wireExt struct {
